@@ -13,6 +13,8 @@ import (
 )
 
 func init() {
+	register(&Rule{ID: "VD15", Min: 6, Run: rulePlanKeys,
+		Doc: "plan-title-key-agreement: in the plan validator and in the plan builder every map insert/lookup keyed by a task title or an `after` entry uses the input string verbatim (no trimming or other transformation), so both sides resolve titles identically"})
 	register(&Rule{ID: "OU4", Min: 8, Run: ruleOU4,
 		Doc: "text-flow-whitelist: the Title/Body fields of every create/title/body event built by a command derive from the input (JSON fields, --title/--body flags, stdin) through loads, stores, phis, parameters, update-map entries under constant keys, the identity resolver and byte/string conversion only; strings.TrimSpace is allowed only on a title taken from the --title flag or from the \"title\" update key (documented); replay stores payload titles/bodies unchanged (legacy untitled items excepted) and the JSON show output loads them unchanged"})
 }
@@ -179,7 +181,12 @@ func (t *textFlow) walkCall(cl *ssa.Call, idx int, d int) {
 		}
 		t.bad("strings.TrimSpace applied to the %s at %s (only a --title flag or the \"title\" update key may be trimmed)", strings.ToLower(t.field), c.Pos(cl.Pos()))
 		return
-	case "io.ReadAll", "os.ReadFile":
+	case "io.ReadAll":
+		if len(cl.Call.Args) == 1 && !isGlobalLoad(cl.Call.Args[0], "Stdin") {
+			t.bad("the input stream is read through a wrapper (%s) at %s instead of os.Stdin itself: text can be cut or altered before it is recorded", c.canon(cl.Call.Args[0]), c.Pos(cl.Pos()))
+		}
+		return
+	case "os.ReadFile":
 		return
 	}
 	// call through a func-typed parameter: the identity resolver idiom
@@ -311,6 +318,93 @@ func ruleOU4(c *Ctx) {
 	}
 	// the JSON encoder must not escape HTML (characters must come back as they went in — still valid JSON either way; informational)
 	// and the event encoder is encoding/json.Marshal of the payload: checked by the newEvent anchor.
+}
+
+// derivesFromField: v's backward slice contains a load of a struct field with one of the given names.
+func derivesFromField(v ssa.Value, names ...string) bool {
+	seen := map[ssa.Value]bool{}
+	var walk func(x ssa.Value, d int) bool
+	walk = func(x ssa.Value, d int) bool {
+		if x == nil || d > 20 || seen[x] {
+			return false
+		}
+		seen[x] = true
+		if fa, ok := x.(*ssa.FieldAddr); ok {
+			n := fieldName(fa.X.Type(), fa.Field)
+			for _, w := range names {
+				if n == w {
+					return true
+				}
+			}
+		}
+		if u, ok := x.(*ssa.UnOp); ok && u.Op == token.MUL {
+			if cell := cellOf(u.X); cell != nil {
+				for _, st := range cellStores(cell) {
+					if walk(st.Val, d+1) {
+						return true
+					}
+				}
+			}
+		}
+		if _, isLookup := x.(*ssa.Lookup); isLookup {
+			return false // the result of a map lookup (an id) is a different domain than its key
+		}
+		if in, ok := x.(ssa.Instruction); ok {
+			for _, op := range in.Operands(nil) {
+				if *op != nil && walk(*op, d+1) {
+					return true
+				}
+			}
+		}
+		return false
+	}
+	return walk(v, 0)
+}
+
+func rulePlanKeys(c *Ctx) {
+	var fns []*ssa.Function
+	if v := c.Fn("(*ergo.PlanInput).Validate"); v != nil {
+		fns = append(fns, v)
+	}
+	if rp := c.ErgoFn("RunPlan"); rp != nil {
+		fns = append(fns, Closures(rp)...)
+	}
+	if len(fns) < 2 {
+		c.unk("ergo.RunPlan", "plan-functions", "-", "plan validator or plan callback not found")
+		return
+	}
+	for _, f := range fns {
+		cnt := 0
+		eachInstr(f, func(r instrRef) {
+			var key ssa.Value
+			var what string
+			switch x := r.In.(type) {
+			case *ssa.MapUpdate:
+				key, what = x.Key, "map insert"
+			case *ssa.Lookup:
+				if _, isMap := x.X.Type().Underlying().(*types.Map); !isMap {
+					return
+				}
+				key, what = x.Index, "map lookup"
+			default:
+				return
+			}
+			if b, ok := key.Type().Underlying().(*types.Basic); !ok || b.Info()&types.IsString == 0 {
+				return
+			}
+			if !derivesFromField(key, "Title", "After") {
+				return
+			}
+			cnt++
+			tf := &textFlow{c: c, field: "Key", seen: map[ssa.Value]bool{}}
+			tf.walk(key, 0)
+			c.check(len(tf.problems) == 0, c.Name(f), fmt.Sprintf("title-key#%d", cnt), c.Pos(r.In.Pos()), what+" keyed by an input title verbatim",
+				"a "+what+" is keyed by a transformed title ("+strings.Join(uniq(tf.problems), "; ")+"): the validator and the plan builder no longer agree on what a title is, so a reference can validate yet resolve to no task (or two distinct titles collide)")
+		})
+		if cnt == 0 {
+			c.bad(c.Name(f), "title-key#0", c.FnPos(f), "no title-keyed map operation found: plan title resolution not recognised")
+		}
+	}
 }
 
 func uniq(xs []string) []string {
